@@ -48,12 +48,16 @@ class HarnessError(Exception):
     """Something is wrong with the harness itself (never reported as a violation)."""
 
 
+LIVE = []   # Stats objects of this process, newest last (dumped by the worker when it is told to stop)
+
+
 class Stats:
     """Per-shard accumulator; JSON-serialisable via to_json()."""
 
     MAX_SAMPLES = 4
 
     def __init__(self):
+        LIVE.append(self)
         self.evaluations = 0
         self.nontrivial = set()
         self.labels = {}
